@@ -328,6 +328,7 @@ def structural(ctx, gen, report=None):
                 seen = []
                 for rep in range(2):
                     t.zero_grad(); x.grad = None
+                    torch.manual_seed(4242)          # same dropout masks on both calls
                     y, ld = t(x, c) if c is not None else t(x)
                     (y.sum() + ld.sum()).backward()
                     missing = [n for n, p in t.named_parameters() if p.requires_grad and p.grad is None]
